@@ -14,6 +14,7 @@ import (
 
 	"verifsim/harness"
 	_ "verifsim/props/c02"
+	_ "verifsim/props/c09"
 	_ "verifsim/props/c12"
 	_ "verifsim/props/c13"
 	_ "verifsim/props/c16"
